@@ -299,6 +299,45 @@ func goModReq(r *rand.Rand) (string, string) {
 	return pick(r, "github.com/", "golang.org/x/", "example.com/", "k8s.io/") + el() + pick(r, "", "", "/"+el()), fmt.Sprintf("%d.%d.%d", r.Intn(2), r.Intn(30), r.Intn(30)) + pre
 }
 
+// bumpVersion returns another valid version of the same major version (same +incompatible suffix).
+func bumpVersion(v string, k int) string {
+	suffix := ""
+	if strings.HasSuffix(v, "+incompatible") {
+		suffix = "+incompatible"
+	}
+	var a, b, c int
+	fmt.Sscanf(v, "%d.%d.%d", &a, &b, &c)
+	return fmt.Sprintf("%d.%d.%d", a, b, c+100+k) + suffix
+}
+
+// chainReplaces: replace directives whose replacement is itself required and / or replaced: chains and swaps.
+// Returns the directives and whether a version-less directive follows the directive that produces its left side
+// (the extractor's transitive treatment: outside the proved domain).
+func chainReplaces(r *rand.Rand, reqs []Pkg) ([]gomodReplace, string) {
+	if len(reqs) < 2 {
+		return nil, ""
+	}
+	a, b := reqs[0], reqs[1]
+	cp, cv := goModReq(r)
+	ab := gomodReplace{Old: a.Name, New: b.Name, NewV: bumpVersion(b.Version, 1)}
+	switch r.Intn(7) {
+	case 0: // listed right to left: b => c, then a => b
+		return []gomodReplace{{Old: b.Name, New: cp, NewV: cv}, ab}, "chain-right-to-left"
+	case 1: // a => b, then the version-specific b@required => c
+		return []gomodReplace{ab, {Old: b.Name, OldV: b.Version, New: cp, NewV: cv}}, "chain-version-specific"
+	case 2: // a => b, then b => c without version: the extractor also rewrites a's replacement
+		return []gomodReplace{ab, {Old: b.Name, New: cp, NewV: cv}}, "chain-versionless-transitive"
+	case 3: // swap, second one version-specific
+		return []gomodReplace{ab, {Old: b.Name, OldV: b.Version, New: a.Name, NewV: bumpVersion(a.Version, 2)}}, "swap-version-specific"
+	case 4: // swap without versions
+		return []gomodReplace{ab, {Old: b.Name, New: a.Name, NewV: bumpVersion(a.Version, 2)}}, "swap-versionless-transitive"
+	case 5: // replacement is a required module (another version of it), nothing else
+		return []gomodReplace{ab}, "replacement-is-required-module"
+	default: // a directive for the replacement's OTHER version: must not apply to anything
+		return []gomodReplace{ab, {Old: b.Name, OldV: bumpVersion(b.Version, 1), New: cp, NewV: cv}}, "chain-other-version"
+	}
+}
+
 func renderGoMod(r *rand.Rand, cl gomodClaim) []byte {
 	nl := "\n"
 	if r.Intn(5) == 0 {
@@ -337,21 +376,31 @@ func renderGoMod(r *rand.Rand, cl gomodClaim) []byte {
 			sb.WriteString(")" + nl + nl)
 		})
 	}
-	for _, rp := range cl.Replaces {
-		rp := rp
+	if len(cl.Replaces) > 0 {
+		// all replace directives stay in their relative order (the order matters to the extractor): one group
 		ds = append(ds, func() {
-			s := rp.Old
-			if rp.OldV != "" {
-				s += " v" + rp.OldV
-			}
-			s += " => " + rp.New
-			if rp.NewV != "" {
-				s += " v" + rp.NewV
+			fmtR := func(rp gomodReplace) string {
+				s := rp.Old
+				if rp.OldV != "" {
+					s += " v" + rp.OldV
+				}
+				s += " => " + rp.New
+				if rp.NewV != "" {
+					s += " v" + rp.NewV
+				}
+				return s
 			}
 			if r.Intn(2) == 0 {
-				sb.WriteString("replace " + s + nl + nl)
+				for _, rp := range cl.Replaces {
+					sb.WriteString("replace " + fmtR(rp) + nl + pick(r, "", nl))
+				}
+				sb.WriteString(nl)
 			} else {
-				sb.WriteString("replace (" + nl + "\t" + s + nl + ")" + nl + nl)
+				sb.WriteString("replace (" + nl)
+				for _, rp := range cl.Replaces {
+					sb.WriteString("\t" + fmtR(rp) + nl)
+				}
+				sb.WriteString(")" + nl + nl)
 			}
 		})
 	}
@@ -443,6 +492,11 @@ func genGoMod(r *rand.Rand, i, n int) *Case {
 		if r.Intn(3) == 0 && len(cl.Requires) > 1 { // two requirements replaced by the same module: merged by the second pass
 			cl.Replaces = []gomodReplace{{Old: cl.Requires[0].Name, New: "example.com/same", NewV: "1.0.0"}, {Old: cl.Requires[1].Name, New: "example.com/same", NewV: "1.0.0"}}
 		}
+	case i%6 == 3 && nrec >= 2: // chains and swaps: the replacement is itself required / replaced
+		stream = "replace-chain"
+		var tag string
+		cl.Replaces, tag = chainReplaces(r, cl.Requires)
+		tags = append(tags, tag)
 	case i%7 == 6: // toolchain directive overrides the go version for stdlib
 		claim = false
 		stream = "with-toolchain"
